@@ -174,7 +174,8 @@ macro_rules! slave_setup {
 // ============================================================================================ C09
 /// Sync (two-step): stored under its sequence id; completes only with a Follow_Up of the same id.
 #[kani::proof]
-#[kani::unwind(66)]
+#[kani::unwind(9)]
+#[kani::stub(PortActionIterator::from, PortActionIterator::verif_recording_from)]
 #[kani::stub(<Duration as core::ops::Div<i32>>::div, stub_div_by_two)]
 #[kani::stub(<Duration as core::ops::Div<f64>>::div, stub_div_by_two)]
 fn c09_sync_two_step() {
@@ -187,7 +188,7 @@ fn c09_sync_two_step() {
     let pre_inst = instance_view(lock.peek());
     let asym = dur_bits(port.config.delay_asymmetry);
 
-    let actions = summarize(port.handle_sync(header, msg, recv_time), 3);
+    let actions = run_actions!(port.handle_sync(header, msg, recv_time));
     let post = port_view(&port);
     assert!(instance_view(lock.peek()) == pre_inst);
 
@@ -217,7 +218,8 @@ fn c09_sync_two_step() {
 
 /// Sync (one-step): t1 is the originTimestamp of the same message.
 #[kani::proof]
-#[kani::unwind(66)]
+#[kani::unwind(9)]
+#[kani::stub(PortActionIterator::from, PortActionIterator::verif_recording_from)]
 #[kani::stub(<Duration as core::ops::Div<i32>>::div, stub_div_by_two)]
 #[kani::stub(<Duration as core::ops::Div<f64>>::div, stub_div_by_two)]
 fn c09_sync_one_step() {
@@ -230,7 +232,7 @@ fn c09_sync_one_step() {
     let pre = port_view(&port);
     let asym = dur_bits(port.config.delay_asymmetry);
 
-    let actions = summarize(port.handle_sync(header, msg, recv_time), 3);
+    let actions = run_actions!(port.handle_sync(header, msg, recv_time));
     let post = port_view(&port);
 
     let mut want = pre;
@@ -258,7 +260,8 @@ fn c09_sync_one_step() {
 
 /// Follow_Up: t1 = preciseOriginTimestamp + correctionField, paired with the Sync of the same id only.
 #[kani::proof]
-#[kani::unwind(66)]
+#[kani::unwind(9)]
+#[kani::stub(PortActionIterator::from, PortActionIterator::verif_recording_from)]
 #[kani::stub(<Duration as core::ops::Div<i32>>::div, stub_div_by_two)]
 #[kani::stub(<Duration as core::ops::Div<f64>>::div, stub_div_by_two)]
 fn c09_follow_up() {
@@ -270,7 +273,7 @@ fn c09_follow_up() {
     let pre_inst = instance_view(lock.peek());
     let asym = dur_bits(port.config.delay_asymmetry);
 
-    let actions = summarize(port.handle_follow_up(header, msg), 3);
+    let actions = run_actions!(port.handle_follow_up(header, msg));
     let post = port_view(&port);
     assert!(instance_view(lock.peek()) == pre_inst);
 
@@ -298,7 +301,8 @@ fn c09_follow_up() {
 
 /// transmit timestamp of a Delay_Req: accepted only for the request in flight (same id), once.
 #[kani::proof]
-#[kani::unwind(66)]
+#[kani::unwind(9)]
+#[kani::stub(PortActionIterator::from, PortActionIterator::verif_recording_from)]
 #[kani::stub(<Duration as core::ops::Div<i32>>::div, stub_div_by_two)]
 #[kani::stub(<Duration as core::ops::Div<f64>>::div, stub_div_by_two)]
 fn c09_delay_timestamp() {
@@ -308,7 +312,7 @@ fn c09_delay_timestamp() {
     let pre = port_view(&port);
     let asym = dur_bits(port.config.delay_asymmetry);
 
-    let actions = summarize(port.handle_delay_timestamp(id, ts), 3);
+    let actions = run_actions!(port.handle_delay_timestamp(id, ts));
     let post = port_view(&port);
 
     let mut want = pre;
@@ -328,7 +332,8 @@ fn c09_delay_timestamp() {
 
 /// Delay_Resp: only from the selected parent, only answering *our* request with the id in flight.
 #[kani::proof]
-#[kani::unwind(66)]
+#[kani::unwind(9)]
+#[kani::stub(PortActionIterator::from, PortActionIterator::verif_recording_from)]
 #[kani::stub(<Duration as core::ops::Div<i32>>::div, stub_div_by_two)]
 #[kani::stub(<Duration as core::ops::Div<f64>>::div, stub_div_by_two)]
 fn c09_delay_resp() {
@@ -341,7 +346,7 @@ fn c09_delay_resp() {
     let asym = dur_bits(port.config.delay_asymmetry);
     let own = port.port_identity;
 
-    let actions = summarize(port.handle_delay_resp(header, msg), 3);
+    let actions = run_actions!(port.handle_delay_resp(header, msg));
     let post = port_view(&port);
     assert!(instance_view(lock.peek()) == pre_inst);
 
@@ -367,7 +372,8 @@ fn c09_delay_resp() {
 /// Delay_Req emission: only a Slave port emits; fresh sequence id (+1 mod 2^16); the exchange record is
 /// reset to that id; exactly one event send with the DelayReq context; the delay-request timer is re-armed.
 #[kani::proof]
-#[kani::unwind(66)]
+#[kani::unwind(9)]
+#[kani::stub(PortActionIterator::from, PortActionIterator::verif_recording_from)]
 #[kani::stub(crate::time::Interval::as_core_duration, stub_as_core_duration)]
 #[kani::stub(core::time::Duration::mul_f64, stub_mul_f64)]
 fn c09_send_e2e_delay_request() {
@@ -379,7 +385,7 @@ fn c09_send_e2e_delay_request() {
     let pre_inst = instance_view(lock.peek());
     let own = port.port_identity;
 
-    let actions = summarize(port.send_delay_request(), 3);
+    let actions = run_actions!(port.send_delay_request());
     let post = port_view(&port);
     assert!(instance_view(lock.peek()) == pre_inst);
 
@@ -411,7 +417,8 @@ fn c09_send_e2e_delay_request() {
 
 /// slave-side handlers on a port that is not Slave: frame (C07/C08)
 #[kani::proof]
-#[kani::unwind(66)]
+#[kani::unwind(9)]
+#[kani::stub(PortActionIterator::from, PortActionIterator::verif_recording_from)]
 #[kani::stub(<Duration as core::ops::Div<i32>>::div, stub_div_by_two)]
 #[kani::stub(<Duration as core::ops::Div<f64>>::div, stub_div_by_two)]
 fn c07_slave_handlers_when_not_slave() {
@@ -425,10 +432,10 @@ fn c07_slave_handlers_when_not_slave() {
     kani::assume(which < 4);
     let header = any_header();
     let n = match which {
-        0 => summarize(port.handle_sync(header, SyncMessage { origin_timestamp: any_wire_timestamp() }, any_time()), 3).n,
-        1 => summarize(port.handle_follow_up(header, FollowUpMessage { precise_origin_timestamp: any_wire_timestamp() }), 3).n,
-        2 => summarize(port.handle_delay_resp(header, DelayRespMessage { receive_timestamp: any_wire_timestamp(), requesting_port_identity: any_port_identity() }), 3).n,
-        _ => summarize(port.handle_delay_timestamp(kani::any(), any_time()), 3).n,
+        0 => run_actions!(port.handle_sync(header, SyncMessage { origin_timestamp: any_wire_timestamp() }, any_time())).n,
+        1 => run_actions!(port.handle_follow_up(header, FollowUpMessage { precise_origin_timestamp: any_wire_timestamp() })).n,
+        2 => run_actions!(port.handle_delay_resp(header, DelayRespMessage { receive_timestamp: any_wire_timestamp(), requesting_port_identity: any_port_identity() })).n,
+        _ => run_actions!(port.handle_delay_timestamp(kani::any(), any_time())).n,
     };
     assert!(n == 0);
     assert!(port_view(&port) == pre);
@@ -443,7 +450,8 @@ fn p2p_setup_state() -> PortState {
 /// Pdelay_Req emission (any port state: the peer mechanism runs on every P2P port): fresh id, the
 /// exchange record is reset, one event send (link-local) with the PDelayReq context, timer re-armed.
 #[kani::proof]
-#[kani::unwind(66)]
+#[kani::unwind(9)]
+#[kani::stub(PortActionIterator::from, PortActionIterator::verif_recording_from)]
 #[kani::stub(crate::time::Interval::as_core_duration, stub_as_core_duration)]
 #[kani::stub(core::time::Duration::mul_f64, stub_mul_f64)]
 fn c14_send_p2p_delay_request() {
@@ -455,7 +463,7 @@ fn c14_send_p2p_delay_request() {
     let pre_inst = instance_view(lock.peek());
     let own = port.port_identity;
 
-    let actions = summarize(port.send_delay_request(), 3);
+    let actions = run_actions!(port.send_delay_request());
     let post = port_view(&port);
     assert!(instance_view(lock.peek()) == pre_inst);
 
@@ -483,7 +491,8 @@ fn c14_send_p2p_delay_request() {
 
 /// transmit timestamp of the Pdelay_Req (t1): accepted only for the request in flight, once.
 #[kani::proof]
-#[kani::unwind(66)]
+#[kani::unwind(34)]
+#[kani::stub(PortActionIterator::from, PortActionIterator::verif_recording_from)]
 #[kani::stub(<Duration as core::ops::Div<i32>>::div, stub_div_by_two)]
 #[kani::stub(<Duration as core::ops::Div<f64>>::div, stub_div_by_two)]
 fn c14_pdelay_timestamp() {
@@ -495,7 +504,7 @@ fn c14_pdelay_timestamp() {
     let pre = port_view(&port);
     let asym = dur_bits(port.config.delay_asymmetry);
 
-    let actions = summarize(port.handle_pdelay_timestamp(id, ts), 3);
+    let actions = run_actions!(port.handle_pdelay_timestamp(id, ts));
     let post = port_view(&port);
 
     let mut want = pre;
@@ -525,7 +534,8 @@ fn peer_times_realistic(p: &PeerDelayState) {
 /// Pdelay_Resp (t2 in the body, t4 = receive time - correction; one-step: t3 := t2).
 /// A response to the request in flight from a *second* responder makes the port Faulty and is not used.
 #[kani::proof]
-#[kani::unwind(66)]
+#[kani::unwind(34)]
+#[kani::stub(PortActionIterator::from, PortActionIterator::verif_recording_from)]
 #[kani::stub(<Duration as core::ops::Div<i32>>::div, stub_div_by_two)]
 #[kani::stub(<Duration as core::ops::Div<f64>>::div, stub_div_by_two)]
 fn c14_pdelay_resp() {
@@ -541,7 +551,7 @@ fn c14_pdelay_resp() {
     let asym = dur_bits(port.config.delay_asymmetry);
     let own = port.port_identity;
 
-    let actions = summarize(port.handle_peer_delay_response(header, msg, recv_time), 3);
+    let actions = run_actions!(port.handle_peer_delay_response(header, msg, recv_time));
     let post = port_view(&port);
     assert!(instance_view(lock.peek()) == pre_inst);
 
@@ -593,7 +603,8 @@ fn c14_pdelay_resp() {
 
 /// Pdelay_Resp_Follow_Up (t3 = responseOriginTimestamp + correction), same responder only.
 #[kani::proof]
-#[kani::unwind(66)]
+#[kani::unwind(34)]
+#[kani::stub(PortActionIterator::from, PortActionIterator::verif_recording_from)]
 #[kani::stub(<Duration as core::ops::Div<i32>>::div, stub_div_by_two)]
 #[kani::stub(<Duration as core::ops::Div<f64>>::div, stub_div_by_two)]
 fn c14_pdelay_resp_follow_up() {
@@ -608,7 +619,7 @@ fn c14_pdelay_resp_follow_up() {
     let asym = dur_bits(port.config.delay_asymmetry);
     let own = port.port_identity;
 
-    let actions = summarize(port.handle_peer_delay_response_follow_up(header, msg), 3);
+    let actions = run_actions!(port.handle_peer_delay_response_follow_up(header, msg));
     let post = port_view(&port);
     assert!(instance_view(lock.peek()) == pre_inst);
 
@@ -654,3 +665,4 @@ fn c14_pdelay_resp_follow_up() {
     kani::cover!(second_responder);
     kani::cover!(meas.is_some());
 }
+
